@@ -461,6 +461,8 @@ type Lemma struct {
 }
 
 type ContractSet struct {
+	Ghosts    map[string]string        // pkgpath.name -> type expression
+	FuncTypes map[string]*FuncContract // contracts of named function types; key pkgpath.TypeName
 	Funcs  map[string]*FuncContract // key: pkgpath + "." + name
 	Pures  map[string]*PureFunc     // key: pkgpath + "." + name
 	Lemmas []*Lemma
@@ -469,12 +471,12 @@ type ContractSet struct {
 }
 
 func NewContractSet() *ContractSet {
-	return &ContractSet{Funcs: map[string]*FuncContract{}, Pures: map[string]*PureFunc{}, Ifaces: map[string]*FuncContract{}}
+	return &ContractSet{Ghosts: map[string]string{}, FuncTypes: map[string]*FuncContract{}, Funcs: map[string]*FuncContract{}, Pures: map[string]*PureFunc{}, Ifaces: map[string]*FuncContract{}}
 }
 
 var (
 	tagRe     = regexp.MustCompile(`^(\w[\w-]*)(\[[A-Za-z0-9_, ]+\])?\s*(.*)$`)
-	keywords  = map[string]bool{"func": true, "loop": true, "pure": true, "lemma": true, "requires": true, "ensures": true, "modifies": true, "invariant": true, "decreases": true, "let": true, "iface": true, "assume-contract": true, "axiom": true}
+	keywords  = map[string]bool{"ghost": true, "functype": true, "func": true, "loop": true, "pure": true, "lemma": true, "requires": true, "ensures": true, "modifies": true, "invariant": true, "decreases": true, "let": true, "iface": true, "assume-contract": true, "axiom": true}
 	pureRe    = regexp.MustCompile(`^(\w+)\s*\((.*?)\)\s*([^=]*?)\s*(?:=\s*(.*))?$`)
 	loopRe    = regexp.MustCompile(`^(\d+)\s+in\s+(\S+)(?:\s+at\s+"(.*)")?\s*$`)
 	lemmaRe   = regexp.MustCompile(`^(\w+)\s*(?:\(([^)]*)\))?\s*((?:[\w-]+=\S+\s*)*):\s*(.*)$`)
@@ -549,7 +551,14 @@ func (cs *ContractSet) LoadFile(path, pkgPath string, trusted bool) error {
 	}
 	for _, r := range raws {
 		switch r.kw {
-		case "func", "assume-contract", "iface":
+		case "ghost":
+			f := strings.Fields(r.text)
+			if len(f) < 2 {
+				return fmt.Errorf("%s:%d: ghost <name> <type>", path, r.line)
+			}
+			cs.Ghosts[pkgPath+"."+f[0]] = strings.Join(f[1:], " ")
+			curF, curL = nil, nil
+		case "func", "assume-contract", "iface", "functype":
 			m := funcOptRe.FindStringSubmatch(r.text)
 			if m == nil {
 				return fmt.Errorf("%s:%d: bad func header %q", path, r.line, r.text)
@@ -572,6 +581,8 @@ func (cs *ContractSet) LoadFile(path, pkgPath string, trusted bool) error {
 			}
 			if r.kw == "iface" {
 				cs.Ifaces[key] = fc
+			} else if r.kw == "functype" {
+				cs.FuncTypes[key] = fc
 			} else {
 				if old, ok := cs.Funcs[key]; ok {
 					return fmt.Errorf("%s:%d: duplicate contract for %s (first at %s:%d)", path, r.line, key, old.File, old.Line)
